@@ -425,3 +425,55 @@ func fwdTextEngine(args []string) error {
 	}
 	return nil
 }
+
+// Engine "proftext" (C17, C11): config.Profiles.Set / profile.String at the level of text against Model/ProfText.v.
+//   pft <id> <value> => <err> <kind> <canonical condition> <ID> <String()> <String() after re-Set> <rules after re-Set on top>
+func init() { register("proftext", profTextEngine) }
+
+func profTextEngine(args []string) error {
+	c := parseCommon("proftext", args)
+	r := newRng(c.seed)
+	conds := []string{"10.0.0.0/8", "10.1.2.77/24", "192.168.1.0/24", "fd00:1::/32", "FD00:0001:0:0::/64", "::ffff:10.0.0.0/104", "0.0.0.0/0",
+		"00:11:22:33:44:55", "AA:BB:CC:DD:EE:FF", "00-11-22-33-44-56", "aabb.ccdd.eeff", "lo", "nosuchif0", "10.0.0.1", "", "lo0"}
+	ids := []string{"abc123", "fedcba", "a", "x=y", "p-with-long-identifier-0123456789", "A1B2C3"}
+	ws := []string{"", "", "", " ", "\t", "  ", " \t "}
+	pad := func(s string) string { return ws[r.intn(len(ws))] + s + ws[r.intn(len(ws))] }
+	for i := 0; i < c.n; i++ {
+		id := ids[r.intn(len(ids))]
+		cd := conds[r.intn(len(conds))]
+		var v string
+		switch r.intn(6) {
+		case 0:
+			v = id
+		case 1, 2:
+			v = cd + "=" + id
+		case 3, 4:
+			v = pad(cd) + "=" + pad(id)
+		default:
+			v = pad(cd) + "=" + pad(id) + "=" + id
+		}
+		var ps config.Profiles
+		if err := ps.Set(v); err != nil {
+			emit("pft", itoa(i), sx(v), "=>", "1", "-", "-", "-", "-", "-", "0")
+			continue
+		}
+		s1 := ps[0].String()
+		kind, canon := "none", ""
+		switch {
+		case ps[0].MAC != nil:
+			kind, canon = "mac", ps[0].MAC.String()
+		case ps[0].Prefix != nil:
+			kind, canon = "cidr", ps[0].Prefix.String()
+		case strings.IndexByte(v, '=') >= 0:
+			kind, canon = "iface", strings.TrimSpace(v[:strings.IndexByte(v, '=')])
+		}
+		var g config.Profiles
+		s2 := "ERR"
+		if g.Set(s1) == nil {
+			s2 = sx(g[0].String())
+		}
+		_ = ps.Set(s1)
+		emit("pft", itoa(i), sx(v), "=>", "0", kind, sx(canon), sx(ps[0].ID), sx(s1), s2, itoa(len(ps)))
+	}
+	return nil
+}
